@@ -510,6 +510,18 @@ impl vstd::std_specs::convert::FromSpecImpl<u64> for VfsInode {
                     forall|k: int| 0 <= k < 256 && (#[trigger] self.sb()[k]) is Some ==> (*self.sb()[k]->Some_0).touch_ok()
                         && (forall|o: FsOptions| #[trigger] (*self.sb()[k]->Some_0).allowed_init(o) <==> (!self.initialized.cur() && o.bits == vfs_out(self.opts.cur(), opts))),
             {''')]))
+    # DESTROY: the counterpart of INIT in the VFS's little state machine.  No property states what DESTROY must do, so every clause here is PINNED behaviour
+    # (`pin`: recorded, never an alarm): each mounted backend is destroyed, only while the VFS is initialised, and the only store is `false` into `initialized`
+    routed.append(Fn(SYNC, SC, 'destroy', props=['C12'], gtag_props={'cap': ['pin'], 'touch': ['pin'], 'store': ['pin']},
+                     requires=['self.wf()',
+                               'forall|b: bool| #[trigger] self.initialized.may_store(b) <==> (!b && self.initialized.cur())',
+                               'forall|k: int| 0 <= k < 256 && (#[trigger] self.sb()[k]) is Some ==> (*self.sb()[k]->Some_0).touch_ok() && ((*self.sb()[k]->Some_0).allowed_destroy() <==> self.initialized.cur())'],
+                     splices=[('for opt_1 in it_1: superblocks.iter() {', 'replace', '''for opt_1 in it_1: superblocks.iter()
+                invariant self.wf(), superblocks@ == self.sb(),
+                    self.initialized.cur(), // [pin.vfs.destroy.only_initialized]
+                    forall|b: bool| #[trigger] self.initialized.may_store(b) <==> (!b && self.initialized.cur()),
+                    forall|k: int| 0 <= k < 256 && (#[trigger] self.sb()[k]) is Some ==> (*self.sb()[k]->Some_0).touch_ok() && ((*self.sb()[k]->Some_0).allowed_destroy() <==> self.initialized.cur()),
+            {''')]))
     # ---- the entry-rewriting closures of Vfs::readdir / readdirplus, lifted (R17): what the client sees for each directory entry
     DE = "DirEntry<'b>"
     WF = ['self.wf()', 'self.mount_wf()']
